@@ -3,5 +3,6 @@ import Driver.Cons
 
 def main (args : List String) : IO UInt32 :=
   Drv.mainWith [
-    ("cons", Drv.Cons.stream)
+    ("cons", Drv.Cons.stream),
+    ("vec", Drv.Vec.stream)
   ] args
